@@ -98,3 +98,26 @@ def shape_str(shape):
     for d, n in shape["d"].items():
         parts.append("%s=%d" % (d, n))
     return " ".join(parts)
+
+
+def fill_boundary(rlevel, shape, j, bg):
+    """like fill(), but every scalar leaf takes the j-th (cyclic) boundary bit pattern of its primitive"""
+    from . import kinds
+
+    def nv(node):
+        if node.kind == "scalar":
+            b = kinds.boundary_bits(node.prim)
+            return b[j % len(b)]
+        if node.kind == "array":
+            return bg.take(node.size)
+        return {m.name: nv(m.node) for m in node.members if m.node.kind != "const"}
+
+    inst = {"f": {}, "g": {}, "d": {}}
+    for f in rlevel.fields:
+        if f.node.kind != "const":
+            inst["f"][f.name] = nv(f.node)
+    for g in rlevel.groups:
+        inst["g"][g.name] = [fill_boundary(g.level, s, j + 1 + i, bg) for i, s in enumerate(shape["g"][g.name])]
+    for d in rlevel.data:
+        inst["d"][d.name] = bg.take(shape["d"][d.name])
+    return inst
